@@ -391,7 +391,99 @@ func TestVerifC17(t *testing.T) {
 	c17Order(r, maxLen)
 	c17FailClosed(r, ctxLen)
 	c17OddKeys(r)
+	c17Wired(t, r)
 	c17Binary(t, r)
+}
+
+// c17Wired: the gating clause through the handler that main() wires up (buildHandler +
+// createHTTPServer) rather than through BuildChain alone, on instances with the documented
+// server options set or left out (timeouts incl. the handler timeout, ID middleware), for
+// ordinary requests and for requests that ask for a protocol upgrade: a rejection by
+// custom-auth or size_limit keeps the request from the backend whatever the wiring adds.
+func c17Wired(t *testing.T, r *vres.Report) {
+	shard, _ := shardOf()
+	if shard != 0 {
+		return
+	}
+	start := time.Now()
+	var evals int64
+	var outs vres.Outcomes
+	for _, wiring := range []string{"defaults", "all-timeouts-5s", "handler-timeout-only", "ids-on"} {
+		for _, chainName := range []string{"custom-auth", "size_limit", "logging,custom-auth,size_limit,gzip"} {
+			be := wire.NewBackend("b0")
+			cfg := baseConfig("round_robin", be.URL())
+			switch wiring {
+			case "all-timeouts-5s":
+				cfg.Server.Timeouts = config.TimeoutConfig{Read: 5, Write: 5, Idle: 5, Handler: 5, Shutdown: 5, BackendDial: 5, BackendRead: 5, BackendIdle: 5}
+			case "handler-timeout-only":
+				cfg.Server.Timeouts = config.TimeoutConfig{Handler: 30}
+			case "ids-on":
+				cfg.Logging.RequestID = config.RequestIDConfig{Enabled: true}
+				cfg.Logging.Trace = config.TraceConfig{Enabled: true}
+			}
+			cfg.Plugins.Enabled = true
+			for _, n := range strings.Split(chainName, ",") {
+				pc := c17Valid[n]
+				if n == "size_limit" {
+					pc = sizeLimitCfg(8, 1<<20)
+				}
+				cfg.Plugins.Chain = append(cfg.Plugins.Chain, pc)
+			}
+			h, err := startHelios(cfg)
+			if err != nil {
+				r.Violate("C17/valid-chain-rejected/wired", fmt.Sprintf("wiring %s, chain %s: %v", wiring, chainName, err), 1, nil)
+				be.Close()
+				continue
+			}
+			e := &exch{addr: h.addr}
+			hasAuth, hasLimit := strings.Contains(chainName, "custom-auth"), strings.Contains(chainName, "size_limit")
+			for _, kind := range []string{"plain", "upgrade-websocket", "upgrade-h2c", "upgrade-in-list"} {
+				for _, rq := range []struct {
+					name    string
+					key     bool
+					body    int
+					rejects bool
+				}{{"accepted", true, 4, false}, {"no-api-key", false, 4, hasAuth}, {"oversized-body", true, 64, hasLimit}, {"no-key-and-oversized", false, 64, hasAuth || hasLimit}} {
+					req := &wire.Request{Method: "POST", Target: "/w", Header: []wire.HeaderLine{{"Host", "x.test"}}, Body: pattern(rq.body, 3)}
+					if rq.key {
+						req.Header = append(req.Header, wire.HeaderLine{"X-API-Key", "sesame"})
+					}
+					switch kind {
+					case "upgrade-websocket":
+						req.Header = append(req.Header, wire.HeaderLine{"Connection", "Upgrade"}, wire.HeaderLine{"Upgrade", "websocket"})
+					case "upgrade-h2c":
+						req.Header = append(req.Header, wire.HeaderLine{"Connection", "Upgrade, HTTP2-Settings"}, wire.HeaderLine{"Upgrade", "h2c"}, wire.HeaderLine{"HTTP2-Settings", "AAMAAABkAAQAAP__"})
+					case "upgrade-in-list":
+						req.Header = append(req.Header, wire.HeaderLine{"Connection", "keep-alive, upgrade"}, wire.HeaderLine{"Upgrade", "websocket"})
+					}
+					be.TakeSeen()
+					be.Next(&wire.Script{Status: 200, Parts: [][]byte{[]byte("ok")}, DeclareLen: true})
+					resp := e.do(req, 15*time.Second)
+					be.WaitIdle()
+					seen := be.TakeSeen()
+					evals++
+					desc := fmt.Sprintf("wiring %s, chain [%s], %s request, %s", wiring, chainName, kind, rq.name)
+					outs.Add(fmt.Sprintf("%s/%s/%v/%d", wiring, kind, rq.rejects, resp.Status))
+					switch {
+					case rq.rejects && len(seen) > 0:
+						r.Violate("C17/gating/backend-reached-after-rejection/wired", fmt.Sprintf("%s: the backend received the request (status %d)", desc, resp.Status), 10, map[string]interface{}{"engine": "W", "test": "TestVerifC17", "wiring": wiring, "chain": chainName, "kind": kind, "request": rq.name})
+					case rq.rejects && (resp.Err != "" || resp.Status < 400):
+						r.Violate("C17/gating/rejection-not-an-error-status/wired", fmt.Sprintf("%s: status %d %s", desc, resp.Status, resp.Err), 10, nil)
+					case !rq.rejects && (resp.Err != "" || resp.Status != 200 || len(seen) != 1):
+						r.Violate("C17/accepted-request-not-served/wired", fmt.Sprintf("%s: status %d %s, backend contacted %d times", desc, resp.Status, resp.Err, len(seen)), 10, nil)
+					}
+					be.Next(nil)
+				}
+			}
+			e.close()
+			h.stop()
+			be.Close()
+		}
+	}
+	r.AddScenario(vres.Scenario{Name: "gating-through-the-wired-handler", Engine: "W", Evaluations: evals, Distinct: int64(outs.N()), Outcomes: outs.N(),
+		Rule:  "one evaluation = one request through buildHandler + createHTTPServer in front of a scripted backend; distinct = (wiring, request kind, must be rejected, status) classes",
+		Bound: "4 wirings (defaults, every timeout set, handler timeout only, ID middleware) x 3 chains x 4 request kinds (plain, three upgrade-asking spellings) x 4 requests", Exhaustive: true,
+		Extra: map[string]interface{}{"wall_s": time.Since(start).Seconds()}})
 }
 
 // c17OddKeys: unusual but non-empty apiKey payloads. Whatever the factory makes of them (it may
